@@ -3,6 +3,7 @@
 package cl
 
 import (
+	"math"
 	"math/big"
 
 	"github.com/ohler55/slip"
@@ -52,7 +53,11 @@ func (f *Subtract) Call(s *slip.Scope, args slip.List, depth int) (dif slip.Obje
 			if pos == len(args)-1 {
 				switch td := dif.(type) {
 				case slip.Fixnum:
-					dif = -td
+					if td == math.MinInt64 {
+						dif = (*slip.Bignum)(new(big.Int).Neg(big.NewInt(int64(td))))
+					} else {
+						dif = -td
+					}
 				case slip.SingleFloat:
 					dif = -td
 				case slip.DoubleFloat:
@@ -73,7 +78,14 @@ func (f *Subtract) Call(s *slip.Scope, args slip.List, depth int) (dif slip.Obje
 		arg, dif = slip.NormalizeNumber(a, dif)
 		switch ta := arg.(type) {
 		case slip.Fixnum:
-			dif = dif.(slip.Fixnum) - ta
+			td := dif.(slip.Fixnum)
+			d := td - ta
+			if (0 <= td && ta < 0 && d < 0) || (td < 0 && 0 < ta && 0 <= d) {
+				// Overflow so continue as bignums.
+				dif = (*slip.Bignum)(new(big.Int).Sub(big.NewInt(int64(td)), big.NewInt(int64(ta))))
+			} else {
+				dif = d
+			}
 		case slip.SingleFloat:
 			dif = dif.(slip.SingleFloat) - ta
 		case slip.DoubleFloat:
